@@ -86,6 +86,14 @@ class RxRecorder:
         self.answers.append(('none',) if m is None else ('m', m.group(0), m.groups()))
         return m
 
+    def __getattr__(self, k):
+        # anything else of the engine module a changed library may use (sub, escape, compile, fullmatch, ...): the real thing;
+        # the call is noted so that the correspondence sees that the engine was used in a way the model does not know
+        if k.startswith('_'):
+            raise AttributeError(k)
+        self.calls.append(('other:' + k,))
+        return getattr(self._real, k)
+
     def findall(self, pattern, s, flags=0, timeout=None, **kw):
         self.calls.append(('findall', pattern, s, int(flags), timeout, kw))
         try:
